@@ -22,6 +22,7 @@ from ..framework import lean_driver, canon
 PROP = "C17"
 LEAN_TARGETS = ["Eliot.Properties.C17", "Eliot.Properties.C17Flat"]
 AUDIT = "Eliot/Audit/C17.lean"
+SKELETON_TARGETS = {"Eliot.ShapesSkel.C17_shapes (E16: LoggedAction.fromMessages / of_type / descendants, LoggedMessage.of_type, assertContainsFields, assertHasMessage, assertHasAction as statement lists)": ("Eliot.Properties.ShapesSkel", "Eliot/Audit/ShapesSkel.lean", ["Eliot.ShapesSkel.loggedActionFromMessages_shape", "Eliot.ShapesSkel.loggedActionOfType_shape", "Eliot.ShapesSkel.loggedActionDescendants_shape", "Eliot.ShapesSkel.loggedMessageOfType_shape", "Eliot.ShapesSkel.assertContainsFieldsBody_shape", "Eliot.ShapesSkel.assertHasMessageBody_shape", "Eliot.ShapesSkel.assertHasActionBody_shape"])}
 THEOREMS = [
     "PM.C17.parser_builds_same_flat",  # the same against the parser as the code runs it (flat `_nodes` tasks)
     "PM.Testing.fromMessages_node", "PM.Testing.containsFields_eq_issuperset",
